@@ -4,6 +4,7 @@ UNITS = [
     Unit('reloc', harness=['h_reloc.cpp'], repo_units=CH),
     Unit('addrtab', harness=['h_addrtab.cpp'], repo_units=CH),
     Unit('absmem', harness=['h_abs_mem.cpp'], repo_units=CH + ['asmjit/x86/x86assembler.cpp', 'asmjit/x86/x86instdb.cpp', 'asmjit/x86/x86instapi.cpp']),
+    Unit('labelabs', harness=['../C03/h_x86ref.cpp'], repo_units=CH + ['asmjit/x86/x86assembler.cpp', 'asmjit/x86/x86instdb.cpp', 'asmjit/x86/x86instapi.cpp']),
     Unit('knownbase', harness=['h_known_base.cpp'], repo_units=CH + ['asmjit/x86/x86assembler.cpp', 'asmjit/x86/x86instdb.cpp', 'asmjit/x86/x86instapi.cpp'], extra_c=['../C10/memmove_words.c']),
 ]
 B1 = 'base address, payload and both section offsets all 2^64 values; relocation type AbsToAbs / RelToAbs / AbsToRel / unsupported; source and target section 0 or 1; target section set or kInvalidId; 0..4 trailing immediate bytes; x86-32 and 64-bit address size; 16 symbolic bytes per section (field bits zero)'
@@ -32,8 +33,12 @@ ABS_FORMS = [('load', 'mov ecx, [rel A] (no immediate)', True), ('store', 'mov [
              ('mov_imm16', 'mov word [rel A], imm16', True), ('mov_imm32', 'mov dword [rel A], imm32', True), ('test_imm32', 'test qword [rel A], imm32', False), ('imul_imm32', 'imul edx, [rel A], imm32', False)]
 HARNESSES += [Harness('absmem', 'h_abs_mem_' + f, unwind=33, bounds='x86-64 ' + what + ' through the real x86 _emit; address A and base address all 2^64 values; explicit ptr_rel or default-type absolute operand; immediate symbolic within its width; base unknown + relocate_to_base vs base known at init', mem_gb=3, timeout=1200,
                       flags=['--max-field-sensitivity-array-size', '128'], unwindset='_ZN6asmjit5v1_21L30CodeHolder_evaluate_expressionEPNS0_10CodeHolderEPNS0_10ExpressionEPm:1', tiers=('quick', 'thorough') if q else ('thorough',)) for f, what, q in ABS_FORMS]
-HARNESSES += [
-]
+# x86-32 [label + addend]: the relocation the real _emit creates, then relocate_to_base (harness source shared with C03)
+HARNESSES += [Harness('labelabs', 'h_x86_mov_abs32_' + m, unwind=33, bounds='32-bit mov ecx, [label+disp32] through the real x86 _emit, label ' + what + '; disp32 all 2^32; base and section offset below 2^32; then relocate_to_base: the field must hold base + section offset + label offset + addend',
+                      mem_gb=3, timeout=1800, flags=['--max-field-sensitivity-array-size', '128'], tiers=t,
+                      unwindset=','.join(uw + ['_ZN6asmjit5v1_21L30CodeHolder_evaluate_expressionEPNS0_10CodeHolderEPNS0_10ExpressionEPm:1']))
+              for m, what, uw, t in (('bound', 'already bound in this section below 2 GiB', [], ('quick', 'thorough')),
+                                     ('later', 'bound afterwards below 2 GiB', [','.join('_ZN6asmjit5v1_2110CodeHolder10bind_labelERKNS0_5LabelEjm.%d:5' % i for i in range(8))], ('thorough',)))]
 EXPLANATION = 'bounded symbolic execution (CBMC) of the real CodeHolder::relocate_to_base / flatten / copy_flattened_data / CodeWriterUtils::write_offset compiled from /repo, from directly constructed relocation tables; the oracle decodes the patched bytes the way the CPU does (reference decoders in the harness)'
 OUTSIDE = ['more than two relocation entries / two address-table entries (the loop and the tree lookup are uniform)', 'JitRuntime::_add mmap side',
            'a64 ADRP to a label (no relocation is created by the back end)', 'Thumb/A32 formats (no producer in this tree)']
